@@ -57,7 +57,7 @@ def routes(family, fi):
     if family == "multitask":
         return [("MultiTaskBCD-subdiff", S("MultiTaskBCD", fit_intercept=fi, **cd)), ("MultiTaskBCD-fixpoint", S("MultiTaskBCD", fit_intercept=fi, ws_strategy="fixpoint", **cd)),
                 ("MultiTaskBCD-noacc", S("MultiTaskBCD", fit_intercept=fi, use_acc=False, **cd))]
-    if family == "group":
+    if family in ("group", "group+"):
         return [("GroupBCD-subdiff", S("GroupBCD", fit_intercept=fi, tol=TOL, max_iter=500)), ("GroupBCD-fixpoint", S("GroupBCD", fit_intercept=fi, tol=TOL, max_iter=500, ws_strategy="fixpoint")),
                 ("GroupBCD-p0=1", S("GroupBCD", fit_intercept=fi, tol=TOL, max_iter=500, p0=1))]
     if family == "quantile":
@@ -67,7 +67,7 @@ def routes(family, fi):
     raise KeyError(family)
 
 
-FAMILIES = ["lasso", "lasso+", "enet", "enet+", "wlasso", "logreg", "svc", "multitask", "group", "quantile", "sqrt"]
+FAMILIES = ["lasso", "lasso+", "enet", "enet+", "wlasso", "logreg", "svc", "multitask", "group", "group+", "quantile", "sqrt"]
 
 
 def plan(tier, seed):
@@ -98,11 +98,11 @@ def problem_spec(family, X, y, frac, fi, variant=0):
     if family == "multitask":
         d = dict(name="QuadraticMultiTask")
         return d, dict(name="L2_1", alpha=frac * a0(d))
-    if family == "group":
-        lay = list(A.GROUP_LAYOUTS[p].values())[1 + variant if p > 1 else 0]
+    if family in ("group", "group+"):
+        lay = list(A.GROUP_LAYOUTS[p].values())[(1 + variant) % len(A.GROUP_LAYOUTS[p]) if family == "group" else (0, len(A.GROUP_LAYOUTS[p]) - 1)[variant]]
         d = dict(name="QuadraticGroup", grp_ptr=lay[0], grp_indices=lay[1])
         G = len(lay[0]) - 1
-        return d, dict(name="WeightedGroupL2", alpha=frac * a0(dict(name="Quadratic")), weights=[1.0, 2.0, 0.5, 1.0, 1.5][:G], grp_ptr=lay[0], grp_indices=lay[1], positive=False)
+        return d, dict(name="WeightedGroupL2", alpha=frac * a0(dict(name="Quadratic")), weights=[1.0, 2.0, 0.5, 1.0, 1.5][:G], grp_ptr=lay[0], grp_indices=lay[1], positive=family.endswith("+"))
     if family == "quantile":
         d = dict(name="Pinball", quantile_level=(0.3, 0.7)[variant])
         return d, dict(name="L1", alpha=frac * 0.5 * float(np.max(np.abs(X.T @ np.ones(n)))), positive=False)
@@ -141,7 +141,7 @@ def reference(family, prob):
                 m = MultiTaskLasso(alpha=ps["alpha"], fit_intercept=fi, tol=1e-15, max_iter=500000).fit(X, y)
                 W = m.coef_.T
                 return np.vstack([W, m.intercept_[None, :]]) if fi else W
-            if family == "group":
+            if family == "group" and not ps.get("positive"):
                 from celer import GroupLasso
                 groups = [list(ps["grp_indices"][ps["grp_ptr"][g]:ps["grp_ptr"][g + 1]]) for g in range(len(ps["grp_ptr"]) - 1)]
                 m = GroupLasso(groups=groups, alpha=ps["alpha"], weights=np.asarray(ps["weights"], dtype=float), fit_intercept=fi, tol=1e-14, max_iter=500,
@@ -206,6 +206,11 @@ def exec_group(params):
             scale = 1.0 + float(np.abs(prob["X"]).sum()) * (1.0 + float(np.abs(prob["y"]).max()))
             if sspec["name"] not in ("PDCD_WS",) and not (C.strategy_of(sspec) == "fixpoint") and nu > c_s * tol * (1 + 1e-6) + 1e-10 * scale:
                 out.append(("violation_above_margin", rname, dict(nu=nu, stop=res["stop_crit"]), f"<= {c_s} * {tol}"))
+            if C.strategy_of(sspec) == "fixpoint" and sspec["name"] in ("AndersonCD", "GroupBCD", "MultiTaskBCD"):
+                # the fixed-point residual recomputed with the reference prox (textbook closed forms for these convex penalties)
+                fp = RC.violation(prob, w, "fixpoint", "cd")[0]
+                if fp > tol * (1 + 1e-6) + 1e-10 * scale:
+                    out.append(("fixed_point_residual_above_tolerance", rname, dict(residual=fp, stop=res["stop_crit"]), f"<= {tol}"))
     if prob is None:
         return out, sols
     ref = reference(family, prob)
@@ -247,8 +252,8 @@ def problems(family, fi, tier):
         kind = {"logreg": "clf", "svc": "clf", "multitask": "multi"}.get(family, "reg")
         for tname, y in R.targets(kind, X, tier)[:2]:
             for frac in (fracs if family != "svc" else (1.0,)):
-                for variant in ((0, 1) if family in ("enet", "enet+", "wlasso", "svc", "group", "quantile") else (0,)):
-                    if family == "group" and (p not in A.GROUP_LAYOUTS or len(A.GROUP_LAYOUTS[p]) < 3):
+                for variant in ((0, 1) if family in ("enet", "enet+", "wlasso", "svc", "group", "group+", "quantile") else (0,)):
+                    if family in ("group", "group+") and (p not in A.GROUP_LAYOUTS or len(A.GROUP_LAYOUTS[p]) < 3):
                         continue
                     dspec, pspec = problem_spec(family, X, y, frac, fi, variant)
                     sc = bool(np.linalg.matrix_rank(X) == p and n >= p + (1 if fi else 0)) or family in ("enet", "enet+")
@@ -280,7 +285,7 @@ def replay(params):
 
 
 def describe(tier, agg):
-    rule = ("11 convex families (Lasso, positive Lasso, elastic net (+positive), weighted Lasso incl. a zero weight, L1 logistic, hinge SVC "
+    rule = ("12 convex families (positive group Lasso, Lasso, positive Lasso, elastic net (+positive), weighted Lasso incl. a zero weight, L1 logistic, hinge SVC "
             "dual, multi-task Lasso, group Lasso, L1 quantile regression, sqrt-Lasso) x intercept on/off x designs {6x3, 4x4, 3x5 (n<p), "
             "duplicated column, orthogonal} x 2 targets x alpha fractions x mixing / weight / layout variants; every applicable skglm "
             "route (AndersonCD subdiff / fixpoint / p0=1, GramCD greedy / cyclic / cyclic+acc, FISTA, ProxNewton subdiff / fixpoint, GroupBCD, "
